@@ -189,6 +189,35 @@ def oracle_values(ctx):
                         vals[('con', form, ell, 0)] = sp.poly_constrained_relaxation(p, g, [], form=form, p=0, q=1, ell=ell).solve(verbose=False)
                     except Exception as e:
                         vals[('con', form, ell, 0)] = ('error', repr(e)[:60])
+            # multipliers that are polynomials (p = 1) on problems whose minimiser has a negative coordinate
+            if trial < 4:
+                xo = so.standard_poly_monomials(2 if trial >= 2 else 1)
+                sg = 1.0 if trial % 2 == 0 else -1.0        # both reflections: the minimiser lies in a different orthant
+                if trial >= 2:
+                    po = xo[0] * xo[1] + sg * xo[0] - xo[1] ** 2
+                    go = [1 - xo[0] ** 2, 1 - xo[1] ** 2]
+                    pts = [np.array(pt_) for pt_ in itertools.product(np.linspace(-1, 1, 41), repeat=2)]
+                else:
+                    po = sg * (xo[0] ** 3 - 2 * xo[0])
+                    go = [1 - xo[0] ** 2]
+                    pts = [np.array([t_]) for t_ in np.linspace(-1, 1, 401)]
+                ubo = min(float(po(pt_)) for pt_ in pts)
+                vo = {}
+                for form in ('primal', 'dual'):
+                    try:
+                        vo[form] = sp.poly_constrained_relaxation(po, go, [], form=form, p=1, q=1, ell=0).solve(verbose=False)
+                    except Exception as e:
+                        vo[form] = ('error', repr(e)[:60])
+                ctx.evaluations += 2
+                ctx.count('value_checks', 'p=1 instances')
+                for form, (st_, val_) in vo.items():
+                    if st_ == 'solved' and isinstance(val_, float) and math.isfinite(val_) and val_ > ubo + 1e-4 * (1 + abs(ubo)):
+                        return ('%s value %r of the (p,q,ell)=(1,1,0) relaxation of %s on the unit box exceeds p at a feasible point (%r)'
+                                % (form, val_, c12.canon(po), ubo), {'p': str(c12.canon(po))})
+                a_, b_ = vo['primal'], vo['dual']
+                if a_[0] == b_[0] == 'solved' and isinstance(a_[1], float) and isinstance(b_[1], float) and math.isfinite(a_[1]) and math.isfinite(b_[1]) \
+                        and a_[1] > b_[1] + 1e-4 * (1 + abs(b_[1])):
+                    return ('primal value %r exceeds dual value %r at (p,q,ell)=(1,1,0) for %s' % (a_[1], b_[1], c12.canon(po)), {'p': str(c12.canon(po))})
             # the constrained builder without constraints, with a modulator
             for form in ('primal', 'dual'):
                 try:
